@@ -170,6 +170,9 @@ def body_classes():
         ("type-trailing-space", {"status": 400, "body": {"type": bn + " "}}),
         ("type-bare-suffix", {"status": 400, "body": {"type": "badNonce"}}),
         ("type-about-blank", {"status": 400, "body": {"type": "about:blank", "detail": "x"}}),
+        # redirections: to `post` a 3xx answer is a non-2xx answer like any other; nothing goes to the Location
+        ("redirect-307", {"redirect": 307, "hops": 1, "to": "rel"}),
+        ("redirect-302-recoverable-body", {"status": 302, "location": "/directory", "body": {"type": bn, "detail": "x"}}),
     ]
 
 
@@ -636,6 +639,8 @@ def run_all(ctx, scns, helper):
 
 def run(ctx):
     gen.gen_consts()
+    from ext import redirect
+    redirect.translate()       # Gen/Senders.lean: the client follows no redirection (Audit/C08Redirect)
     vlib.build_acmed()
     vlib.build_helper()
     tables = gen.gen_tables()
@@ -662,7 +667,8 @@ def run(ctx):
         "headers; on a polled URL a 2xx answer ends the logical request (the next POST is the next poll)",
         "accountDoesNotExist on newOrder is followed by a re-registration and a NEW newOrder request (C11): the "
         "first request is judged as failed and not re-sent",
-        "redirects are followed by the HTTP library and are out of scope (property quantifier)",
+        "the HTTP client follows no redirection (Props/C09Redirect one_send_is_one_request, from the source on every run): "
+        "to a POST a 3xx answer is a non-2xx answer like any other, classified by its body",
     ]
     return ctx.finish(extra={"scenarios": len(scns)}, **FINISH)
 
